@@ -71,7 +71,7 @@ PROPS = {
     ),
     "C18": dict(
         level="proof",
-        specs=["specs.c18_context", "specs.c17_purity", "specs.c14_probe"],      # (c17_purity: the ownership contract of Context.__init__; c14_probe: the extent discover_connections works out - both tagged C18)
+        specs=["specs.c18_context", "specs.c17_purity", "specs.c14_probe", "specs.c09_loading"],      # (c17_purity: the ownership contract of Context.__init__; c14_probe: the extent discover_connections works out - both tagged C18)
         bounded=["bounded.c18_context"],
         trusted=["specs/c19_spinn5.py tile model (shared with C19)"],
     ),
